@@ -74,9 +74,12 @@ def run_check(prop, tier, sizes, scale=1.0):
         if v and prop in v["props"]:
             classes.setdefault((v["oracle"], v["callee"]), []).append(r)
     n_viol_runs = sum(len(v) for v in classes.values())
+    if classes:
+        print("violation classes seen: " + " ".join(f"[{k[0]}, {k[1]}]x{len(v)}" for k, v in sorted(classes.items())))
     reported = []
     known_hits = []
-    for key in sorted(classes)[:4]:
+    fast = bool(os.environ.get("VERIF_TRIAGE_FAST"))  # seeded-matrix runs: minimise one class only, skip the self-test
+    for key in sorted(classes)[: (1 if fast else 4)]:
         runs = sorted(classes[key], key=lambda r: (r["n_ops"], r["seed"]))
         r = runs[0]
         v = r["violation"]
@@ -110,8 +113,10 @@ def run_check(prop, tier, sizes, scale=1.0):
 
     # ---- determinism self-test
     det = {"sampled": 0, "ops_mismatch": 0, "outcome_mismatch": 0}
+    if fast:
+        n_det = 0
     det_seeds_r = [r["seed"] for r in res_r if "harness_error" not in r][: n_det]
-    det_seeds_s = [r["seed"] for r in res_s if "harness_error" not in r][: max(2, n_det // 4)]
+    det_seeds_s = [r["seed"] for r in res_s if "harness_error" not in r][: (max(2, n_det // 4) if n_det else 0)]
     by_seed = {("random", r["seed"]): r for r in res_r if "harness_error" not in r}
     by_seed.update({("sweep", r["seed"]): r for r in res_s if "harness_error" not in r})
     try:
